@@ -95,7 +95,8 @@ fn stats() -> J {
         o.set("thread_names", J::Arr(names.into_iter().map(J::from).collect()));
         // last part of the event log: enough to read a failure against the source
         let n = r.log.len();
-        let from = n.saturating_sub(400);
+        let keep: usize = std::env::var("VSIM_LOG_TAIL").ok().and_then(|v| v.parse().ok()).unwrap_or(400);
+        let from = n.saturating_sub(keep);
         let tail: Vec<J> = r.log[from..]
             .iter()
             .map(|e| J::from(format!("{} t{} +{}ns {}", e.seq, e.tid, e.now % 1_000_000_000_000, e.label)))
@@ -164,15 +165,23 @@ fn on_abort(kind: Abort, msg: String) -> ! {
             let m = MON.lock().unwrap_or_else(|e| e.into_inner()).clone();
             for (tid, name, t0) in m {
                 if now.saturating_sub(t0) >= lim {
-                    finish(obj! {"outcome" => "violation", "class" => "call-stuck",
+                    let class = if let Some((c, _)) = name.split_once('|') { c.to_string() } else { "call-stuck".to_string() };
+                    finish(obj! {"outcome" => "violation", "class" => class,
                         "msg" => format!("{name} (thread t{tid}) still running {} ms after it was called; {kind:?}: {msg}", now.saturating_sub(t0) / 1_000_000)});
                 }
             }
             finish(obj! {"outcome" => "harness-error", "class" => format!("{kind:?}"), "msg" => msg})
         }
         Abort::ReplayDiverged => finish(obj! {"outcome" => "harness-error", "class" => "replay-diverged", "msg" => msg}),
+        Abort::ForeignStack => finish(obj! {"outcome" => "violation", "class" => "crash", "msg" => format!("memory safety: {msg}")}),
         Abort::Internal => finish(obj! {"outcome" => "harness-error", "class" => "internal", "msg" => msg}),
     }
+}
+
+fn on_fatal_signal(sig: i32, pc: usize, addr: usize) -> ! {
+    // async-signal context: keep it short; the result line is one write()
+    finish(obj! {"outcome" => "violation", "class" => "crash",
+        "msg" => format!("unrecovered memory fault (signal {sig}) at pc {pc:#x}, address {addr:#x}: the runtime's trap handler found no coroutine to fail")})
 }
 
 pub fn sim_config_from(plan: &J, sched_seed: u64, record: bool, replay: Option<Vec<(u64, u32)>>) -> Config {
@@ -240,6 +249,9 @@ pub fn run(idx: u64, plan: &J, sched_seed: u64, record: bool, replay: Option<Vec
             .cloned()
             .or_else(|| info.payload().downcast_ref::<&str>().map(|s| (*s).to_string()))
             .unwrap_or_default();
+        if std::env::var_os("VSIM_PANIC_TRACE").is_some() {
+            eprintln!("[panic] {msg} @ {loc}");
+        }
         if let Ok(mut g) = LAST_PANIC.try_lock() {
             *g = format!("{msg} @ {loc}");
         }
@@ -254,6 +266,7 @@ pub fn run(idx: u64, plan: &J, sched_seed: u64, record: bool, replay: Option<Vec
         }
     }
     sim::set_abort_handler(on_abort);
+    sim::set_fatal_signal_hook(on_fatal_signal);
     sim::start(cfg);
     let r = std::panic::catch_unwind(|| body(plan));
     if let Err(e) = r {
